@@ -4,7 +4,7 @@ export GOFLAGS=-mod=mod GOPROXY=off GOSUMDB=off GOTOOLCHAIN=local
 id=$1; shift
 props=${@:-$id}
 src=${SEEDSRC:-/tmp/seed}/$id
-dst=/verif/seeded/$id
+dst=/verif/seeded/${SEEDPREFIX:-}$id
 mkdir -p $dst
 cp $src/patch.diff $src/seed_demo_test.go $src/NOTES.md $dst/ 2>/dev/null
 if [ -n "$(git -C /repo status --porcelain)" ]; then echo "/repo not clean"; exit 2; fi
